@@ -102,6 +102,62 @@ def run(ctx):
     # user text otherwise goes through Roff::text (escaped): census
     texts = [c for b in mg.bodies for c in b.calls_to(r"^roff::Roff::text$")]
     res.floor("R19.1", "Roff::text call sites", len(texts), 15)
+    # R19.1b: roff 0.2.1 only protects a leading `.`/`'` of the FIRST inline of a text line and of text after a newline
+    # inside one inline; an inline that follows Inline::LineBreak starts an output line unprotected.  So in every
+    # Roff::text call the inline right after a LineBreak must be generator-constant text.
+    nlb = 0
+    for c in texts:
+        b = c.body
+        seqs = []
+        l = op_local(c.args[1])
+        # the inlines argument: an array aggregate (possibly via vec!/into) of Inline values
+        seen = set()
+        work = [l]
+        while work:
+            x = work.pop()
+            if x in seen or x is None:
+                continue
+            seen.add(x)
+            for (bb_, idx_, lhs_, rhs_) in b.def_sites(x):
+                if isinstance(rhs_, Call):
+                    for a in rhs_.args:
+                        if op_place(a) is not None:
+                            work.append(op_local(a))
+                elif rhs_["k"] == "agg" and rhs_["ak"] == "array":
+                    seqs.append(rhs_["ops"])
+                else:
+                    for pp_ in rv_places(rhs_):
+                        work.append(pl_local(pp_))
+        for i_, j_, st in b.stmts():
+            if st["k"] == "assign" and not isinstance(st["place"], int) and st["rv"]["k"] == "agg" and st["rv"]["ak"] == "array" and pl_local(st["place"]) in seen:
+                seqs.append(st["rv"]["ops"])
+        for ops in seqs:
+            kinds = []
+            for o in ops:
+                e = expr(b, o)
+                if re.search(r"Inline::LineBreak", e):
+                    kinds.append(("break", e))
+                else:
+                    kinds.append(("text", e))
+            for k_, (kind, e) in enumerate(kinds):
+                if kind == "break" and k_ + 1 < len(kinds) and kinds[k_ + 1][0] == "text":
+                    nlb += 1
+                    nxt = kinds[k_ + 1][1]
+                    const_text = re.fullmatch(r"(roman|bold|italic)\('[^']*'\)", nxt) is not None
+                    res.check(const_text, "R19.1", "after-linebreak|%s" % b.q, c.where(), "inline after a LineBreak is the constant %s" % nxt[:40],
+                              "author text is placed right after Inline::LineBreak in one Roff::text call (%s): roff does not protect a leading `.` there, so a line of the text can become a request" % nxt[:80])
+        # inlines accumulated with Vec::push: order is not tracked, so a LineBreak and author text in one vector is a hazard
+        from strflow import ref_targets
+        pushed = []
+        for pc in b.calls_to(r"std::vec::Vec::push$"):
+            if pc.args and (ref_targets(b, op_local(pc.args[0])) & seen):
+                pushed.append(expr(b, pc.args[1]))
+        if pushed:
+            has_break = any(re.search(r"Inline::LineBreak", e) for e in pushed)
+            dyn = [e for e in pushed if not re.search(r"Inline::LineBreak", e) and not re.fullmatch(r"(roman|bold|italic)\('[^']*'\)", e)]
+            res.check(not (has_break and dyn), "R19.1", "linebreak-in-accumulated-line|%s" % b.q, c.where(), "no LineBreak mixed with author text in one accumulated text line",
+                      "a text line accumulated with push() contains Inline::LineBreak together with author text (%s): the inline after the break starts an output line without roff's leading-dot protection" % dyn[0][:60])
+    res.floor("R19.1", "LineBreak-followed-by-text sites", nlb, 1)
     # no raw writes to the output besides roff.to_writer
     raw = [c for b in mg.bodies for c in b.calls_to(r"io::Write>?::(write_all|write_fmt|write)$", r"Write::write_all$", r"Write::write_fmt$")]
     for c in raw:
